@@ -451,8 +451,18 @@ func rule034(r *core.Run) {
 				set := map[string]bool{}
 				for l := range s.Leaves {
 					if strings.HasPrefix(l, "param:") {
-						// parameter names are the same in both helpers; keep only the name
-						l = "param:" + l[strings.LastIndex(l, ".")+1:]
+						// parameters correspond by position and type, not by name
+						l2 := "param:?"
+						for _, pv := range s.LeafVals[l] {
+							if par, ok := pv.(*ssa.Parameter); ok {
+								for i, q := range par.Parent().Params {
+									if q == par {
+										l2 = sprintf("param#%d:%s", i, r.P.TypeShort(par.Type()))
+									}
+								}
+							}
+						}
+						l = normLeaf(l2)
 					}
 					if strings.HasPrefix(l, "alloc:") || strings.HasPrefix(l, "feeds:") || strings.HasPrefix(l, "via:") {
 						continue
@@ -615,7 +625,7 @@ func rule036(r *core.Run) {
 				return true
 			}
 			// match.MatchedPart == lastMatchedPart
-			if cd.Op == token.EQL && truth && (isLoadOf(r, cd.X, "gofakes3.PrefixMatch.MatchedPart") || isLoadOf(r, cd.Y, "gofakes3.PrefixMatch.MatchedPart")) {
+			if eq, ok := (core.Guard{If: iff, Branch: branch}).Equality(); ok && eq && (isLoadOf(r, cd.X, "gofakes3.PrefixMatch.MatchedPart") || isLoadOf(r, cd.Y, "gofakes3.PrefixMatch.MatchedPart")) {
 				return true
 			}
 			_ = s
